@@ -203,6 +203,14 @@ def stream_tetra(ctx):
             mol._atoms[c]._stereo = None
             # relational oracle on the real outputs: sign changes exactly under odd permutations
             ref = list(nbrs)
+            if len(nbrs) == 4 and name == 'T4':
+                for e, r in signs.items():
+                    r3 = outcome(mol._translate_tetrahedron_sign, c, tuple(new[x] for x in e[:3]), True)
+                    ctx.count(('tetra-take3', name, ins, e))
+                    if r3 != r:
+                        rel_fail += 1
+                        ctx.fail('C12/tetrahedron-three-of-four', f'{name}: translate({list(e)})={r} but translate({list(e[:3])})={r3}',
+                                 {'kind': 'translate-tetra-pair', 'template': name, 'insertion': list(ins), 'env1': list(e), 'env2': list(e[:3])})
             for e, r in signs.items():
                 ctx.count(('tetra-parity', name, ins, e))
                 if (r != signs[tuple(ref)]) != odd(list(e), ref):
@@ -358,6 +366,11 @@ def stream_geometry(ctx):
         mark = rng.choice([1, -1])
         st.add('als ' + ' '.join(map(str, [mark] + flat[2:])), outcome(S._allene_sign, mark, *map(tuple, q[1:])),
                {'kind': 'geometry', 'f': 'allene', 'p': [mark] + q[1:]})
+        for f, pts in (('pyramid', p), ('cis_trans', q), ('allene', [mark] + q[1:])):
+            ctx.count(('geometry-law', f, i))
+            fails, what = probe({'kind': 'geometry', 'f': f, 'p': pts})
+            if fails:
+                ctx.fail(f'C12/geometry-sign-law/{f}', what, {'kind': 'geometry', 'f': f, 'p': pts})
     st.run()
 
 
@@ -372,6 +385,11 @@ def correspond(ctx):
     ctx.cov['programs'] += 3
     stream_spellings(ctx)
     ctx.cov['programs'] += 4   # smiles(), parser order bookkeeping, _format_atom, __eq__/str
+    stream_written(ctx)
+    ctx.cov['programs'] += 2   # _smiles (canonical), __format__('r')
+    stream_ring_double_bonds(ctx)
+    stream_nonstereogenic(ctx)
+    ctx.cov['programs'] += 3   # __chiral_centers via chiral_cis_trans, fix_stereo, stereogenic_* properties
     ctx.exhaustive = not ctx.quick
 
 
@@ -469,6 +487,50 @@ def probe(inp):
         eq = a == b
         return eq != inp['same'], (f"{inp['a']!r} -> {str(a)!r}; {inp['b']!r} -> {str(b)!r}; equal={eq}, "
                                    f"expected {'equal' if inp['same'] else 'different'} (RDKit: {rd_canon(inp['a'])!r} vs {rd_canon(inp['b'])!r})")
+    if kind == 'write-judge':
+        import random as _r
+        from chython import smiles
+        smi = inp['smiles']
+        mi = mini_read(smi)
+        mol = smiles(smi)
+        tet, db = mini_config(mi, list(range(1, len(mi.atoms) + 1)))
+        labelled = {n for n, a in mol.atoms() if a.stereo is not None}
+        lab_db = set()
+        for n, m_, b in mol.bonds():
+            if b.stereo is not None and mol._stereo_cis_trans_terminals.get(n):
+                lab_db.add(tuple(sorted(mol._stereo_cis_trans_terminals[n], key=str)))
+        tet = {c: v for c, v in tet.items() if c in labelled}
+        db = {k: v for k, v in db.items() if k in lab_db}
+        r_in = rd_canon(smi)
+        for fmt, out, order in written_outputs(mol, _r.Random(0), 300):
+            d = judge_written(mol, out, order, tet, db)
+            if d:
+                return True, f'{smi!r} written as {out!r}: {d[:2]}'
+            if r_in is not None and rd_canon(out) != r_in:
+                return True, f'{smi!r} (RDKit {r_in!r}) written as {out!r} (RDKit {rd_canon(out)!r})'
+        return False, f'{smi!r}: canonical and 300 random-order strings all denote the configuration read independently from the input'
+    if kind == 'ring-ez':
+        from chython import smiles
+        z, e, p = smiles(inp['z']), smiles(inp['e']), smiles(inp['plain'])
+        chy_equal = z == e
+        rd_equal = rd_canon(inp['z']) == rd_canon(inp['e'])
+        what = (f"Z {inp['z']!r} -> {str(z)!r}, E {inp['e']!r} -> {str(e)!r}: chython {'equal' if chy_equal else 'different'}, "
+                f"RDKit {'equal' if rd_equal else 'different'}; unlabelled {str(p)!r}")
+        return chy_equal != rd_equal or (chy_equal and str(z) != str(p)), what
+    if kind == 'nonstereo':
+        from chython import smiles
+        s = str(smiles(inp['smiles']))
+        return s != inp['plain'] or '@' in s or '/' in s or '\\' in s, f"{inp['smiles']!r} -> {s!r}; unmarked molecule {inp['plain']!r}"
+    if kind == 'fix-stereo':
+        m, has = fix_stereo_case(inp['smiles'], inp['edit'], inp['kept'])
+        if inp['kept'] is None:
+            return False, f"{inp['smiles']!r} after {inp['edit']}: label {'kept' if has else 'removed'} (no expectation)"
+        return has != inp['kept'], f"{inp['smiles']!r} after replacing {inp['edit']}: {str(m)!r}, label {'kept' if has else 'removed'}, expected {'kept' if inp['kept'] else 'removed'}"
+    if kind == 'reread':
+        from chython import smiles
+        m = smiles(inp['smiles'])
+        back = smiles(str(m))
+        return str(back) != str(m), f"{inp['smiles']!r} -> {str(m)!r} -> {str(back)!r}"
     if kind == 'rdkit':
         from chython import smiles
         out = str(smiles(inp['smiles'])).split()[0]
@@ -479,6 +541,8 @@ def probe(inp):
         mol = build(dict(atoms), [(1, x, 1) for x in inp['insertion']] + [(9, 10, 1)])
         r1 = outcome(mol._translate_tetrahedron_sign, 1, tuple(inp['env1']), True)
         r2 = outcome(mol._translate_tetrahedron_sign, 1, tuple(inp['env2']), True)
+        if len(inp['env2']) == 3 and len(inp['env1']) == 4:
+            return r1 != r2, f"translate({inp['env1']})={r1}, translate of its first three={r2}"
         o = odd(inp['env2'], inp['env1'])
         fails = not (r1.startswith('ok') and r2.startswith('ok')) or (r1 != r2) != o
         return fails, f"translate({inp['env1']})={r1}, translate({inp['env2']})={r2}, env2 is an {'odd' if o else 'even'} permutation of env1"
@@ -860,6 +924,11 @@ def config_check(ctx, spec, sps, mirror_sps, use_rdkit=True, sig_prefix='C12'):
             try:
                 m = smiles(smi)
                 strs.setdefault(grp, {})[smi] = str(m)
+                back = smiles(str(m))
+                if str(back) != str(m):
+                    bad += 1
+                    ctx.fail(f'{sig_prefix}/write-read-changes-configuration/{spec.name}',
+                             f'{smi!r} is written as {str(m)!r}, which reads back as {str(back)!r}', {'kind': 'reread', 'smiles': smi})
             except Exception as e:
                 strs.setdefault(grp, {})[smi] = f'!{type(e).__name__}'
     same, mirror = strs.get('same', {}), strs.get('mirror', {})
@@ -1014,3 +1083,486 @@ def smi_token(smi, idx):
     import re
     toks = re.findall(r'\[[^\]]*\]|Cl|Br|[BCNOPSFI]', smi)
     return toks[idx]
+
+
+# ================================================================================================
+# independent mini SMILES reader (topology + stereo marks only) and configuration judge
+# ================================================================================================
+# Written from the OpenSMILES grammar, shares nothing with chython's tokenizer/parser and nothing with `spell`.
+
+import re as _re
+
+_ATOM_RE = _re.compile(r'\[(?P<iso>\d+)?(?P<sym>[A-Za-z][a-z]?)(?P<chi>@@?)?(?P<h>H\d*)?(?P<chg>[+-]+\d*|[+-]\d+)?(?::(?P<map>\d+))?\]')
+_ORG_RE = _re.compile(r'Cl|Br|[BCNOPSFI]|[bcnops]')
+
+
+class MiniMol:
+    """atoms: list of dicts (sym, chi: None|'@'|'@@', h: explicit bracket H count or None, start: no preceding atom);
+    nbrs[i]: neighbours in text order (ring-closure partners at the position of their digit);
+    dirs[(i, j)]: +1 if the bond i->j is written as going 'up' from i ('/' when written i then j), -1 for 'down'."""
+
+    def __init__(self):
+        self.atoms, self.nbrs, self.dirs, self.orders = [], [], {}, {}
+
+
+def mini_read(smi):
+    m = MiniMol()
+    i, n = 0, len(smi)
+    prev, stack, pend, dot = None, [], None, True
+    rings = {}
+    while i < n:
+        ch = smi[i]
+        if ch == ' ':
+            break
+        if ch == '(':
+            stack.append(prev)
+            i += 1
+        elif ch == ')':
+            prev = stack.pop()
+            i += 1
+        elif ch == '.':
+            dot = True
+            pend = None
+            i += 1
+        elif ch in '-=#:$~/\\':
+            pend = ch
+            i += 1
+        elif ch.isdigit() or ch == '%':
+            if ch == '%':
+                k = int(smi[i + 1:i + 3])
+                i += 3
+            else:
+                k = int(ch)
+                i += 1
+            if k in rings:
+                a, slot, sym = rings.pop(k)
+                m.nbrs[a][slot] = prev
+                m.nbrs[prev].append(a)
+                for s, (x, y) in ((sym, (a, prev)), (pend, (prev, a))):
+                    if s in ('/', '\\'):
+                        d = 1 if s == '/' else -1
+                        m.dirs[(x, y)] = d
+                        m.dirs[(y, x)] = -d
+                o = (pend if pend not in (None, '/', '\\') else None) or (sym if sym not in (None, '/', '\\') else None)
+                m.orders[frozenset((a, prev))] = o or '-'
+            else:
+                rings[k] = (prev, len(m.nbrs[prev]), pend)
+                m.nbrs[prev].append(None)
+            pend = None
+        else:
+            mo = _ATOM_RE.match(smi, i) if ch == '[' else _ORG_RE.match(smi, i)
+            if not mo:
+                raise ValueError(f'mini_read: cannot read {smi[i:i + 8]!r} in {smi!r}')
+            idx = len(m.atoms)
+            if ch == '[':
+                h = mo.group('h')
+                m.atoms.append({'sym': mo.group('sym'), 'chi': mo.group('chi'), 'h': 0 if not h else (int(h[1:]) if len(h) > 1 else 1),
+                                'start': prev is None or dot})
+            else:
+                m.atoms.append({'sym': mo.group(), 'chi': None, 'h': None, 'start': prev is None or dot})
+            m.nbrs.append([])
+            if prev is not None and not dot:
+                m.nbrs[prev].append(idx)
+                m.nbrs[idx].append(prev)
+                if pend in ('/', '\\'):
+                    d = 1 if pend == '/' else -1
+                    m.dirs[(prev, idx)] = d
+                    m.dirs[(idx, prev)] = -d
+                m.orders[frozenset((prev, idx))] = pend if pend not in (None, '/', '\\') else '-'
+            prev, dot, pend = idx, False, None
+            i = mo.end()
+    if rings or stack:
+        raise ValueError(f'mini_read: unbalanced {smi!r}')
+    return m
+
+
+def mini_config(m, ident):
+    """Configuration of every marked element, expressed on caller-supplied atom identities `ident[token index]`.
+    tetrahedral: {centre: (neighbour list with 'h' for the implicit hydrogen, anticlockwise?)}
+    double bonds: {(a, b) with a < b by identity: {(x, y): cis?}} for every pair of marked substituents."""
+    tet, db = {}, {}
+    for i, a in enumerate(m.atoms):
+        if a['chi'] and len(m.nbrs[i]) + (a['h'] or 0) == 4 and (a['h'] or 0) <= 1:
+            full = [ident[x] for x in m.nbrs[i]]
+            if a['h']:
+                full.insert(0 if a['start'] else 1, 'h')
+            tet[ident[i]] = (full, a['chi'] == '@')
+    for bond, o in m.orders.items():
+        if o != '=':
+            continue
+        a, b = tuple(bond)
+        da = {x: m.dirs[(a, x)] for x in m.nbrs[a] if (a, x) in m.dirs and x != b}
+        dbb = {y: m.dirs[(b, y)] for y in m.nbrs[b] if (b, y) in m.dirs and y != a}
+        if da and dbb:
+            key = tuple(sorted((ident[a], ident[b]), key=str))
+            # marks are relative to the written direction: 'up from a' and 'up from b' on the same side = cis
+            db[key] = {(ident[x], ident[y]) if key[0] == ident[a] else (ident[y], ident[x]): dx == dy
+                       for x, dx in da.items() for y, dy in dbb.items()}
+    return tet, db
+
+
+def same_tetra(c1, c2):
+    """two (neighbour list, anticlockwise?) descriptions of one centre denote the same configuration"""
+    (l1, s1), (l2, s2) = c1, c2
+    if sorted(map(str, l1)) != sorted(map(str, l2)):
+        return None
+    return (s1 == s2) != odd(l2, l1)
+
+
+def db_cis(desc, nbrs_a, nbrs_b, x, y):
+    """cis/trans of substituents (x on a, y on b) from any marked pair of the same double bond (flip per end)"""
+    for (p, q), cis in desc.items():
+        return cis == ((p == x) == (q == y))
+    return None
+
+
+def judge_written(mol, out, order, ref_tet, ref_db):
+    """Compare the configuration written in `out` (token k is atom order[k]) with the reference configuration
+    (`ref_tet`, `ref_db` on atom numbers). Returns list of differences."""
+    m = mini_read(out)
+    ident = list(order)
+    tet, db = mini_config(m, ident)
+    diffs = []
+    for c, ref in ref_tet.items():
+        if c not in tet:
+            diffs.append(f'centre {c}: no mark written')
+        else:
+            r = same_tetra(ref, tet[c])
+            if r is not True:
+                diffs.append(f'centre {c}: written {tet[c]} vs reference {ref}' + (' (different neighbours)' if r is None else ' (mirror image)'))
+    for c in tet:
+        if c not in ref_tet:
+            diffs.append(f'centre {c}: mark written but none in the reference')
+    for key, ref in ref_db.items():
+        if key not in db:
+            diffs.append(f'double bond {key}: no marks written')
+            continue
+        (x, y), cis = next(iter(ref.items()))
+        (p, q), cis2 = next(iter(db[key].items()))
+        if (cis2 == ((p == x) == (q == y))) != cis:
+            diffs.append(f'double bond {key}: written {db[key]} vs reference {ref}')
+    for key in db:
+        if key not in ref_db:
+            diffs.append(f'double bond {key}: marks written but none in the reference')
+    return diffs
+
+
+# ================================================================================================
+# streams added after coordinator feedback: written configuration (multi-closure centres), ring double bonds,
+# non-stereogenic labels
+# ================================================================================================
+
+def cage_specs():
+    """centres that carry two or three ring-closure digits in some spellings: spiro, fused, bridged, cage"""
+    out = []
+    # spiro[3.4]: ring A 1-2(O)-3-4, ring B 1-5(N)-6-7-8
+    a = {1: 'C', 2: 'O', 3: 'C', 4: 'C', 5: 'N', 6: 'C', 7: 'C', 8: 'C'}
+    b = {(1, 2): 1, (2, 3): 1, (3, 4): 1, (4, 1): 1, (1, 5): 1, (5, 6): 1, (6, 7): 1, (7, 8): 1, (8, 1): 1}
+    out.append(Spec(a, b, {1: ([2, 4, 5, 8], True)}, name='spiro[3.4]'))
+    # fused bicyclo[4.3.0]: shared bond 1-2; ring A 1-2-3(O)-4-5, ring B 1-2-6(N)-7-8-9
+    a = {1: 'C', 2: 'C', 3: 'O', 4: 'C', 5: 'C', 6: 'N', 7: 'C', 8: 'C', 9: 'C'}
+    b = {(1, 2): 1, (2, 3): 1, (3, 4): 1, (4, 5): 1, (5, 1): 1, (2, 6): 1, (6, 7): 1, (7, 8): 1, (8, 9): 1, (9, 1): 1}
+    out.append(Spec(a, b, {1: ([2, 5, 9, 'h'], True), 2: ([1, 3, 6, 'h'], False)}, name='fused[4.3.0]'))
+    out.append(Spec({**a, 10: 'F', 11: 'C'}, {**b, (1, 10): 1, (2, 11): 1}, {1: ([2, 5, 9, 10], True), 2: ([1, 3, 6, 11], True)},
+                    name='fused[4.3.0]-F,Me'))
+    # bridged bicyclo[2.2.1]: bridgeheads 1, 4; bridges 1-2(O)-3-4, 1-5-6-4, 1-7(N)-4
+    a = {1: 'C', 2: 'O', 3: 'C', 4: 'C', 5: 'C', 6: 'C', 7: 'N', 8: 'F'}
+    b = {(1, 2): 1, (2, 3): 1, (3, 4): 1, (1, 5): 1, (5, 6): 1, (6, 4): 1, (1, 7): 1, (7, 4): 1, (1, 8): 1}
+    out.append(Spec(a, b, {1: ([2, 5, 7, 8], True), 4: ([3, 6, 7, 'h'], True)}, name='bridged[2.2.1]'))
+    # cage: centre 1 with four ring neighbours 2(O),4,6,8 joined 2-3-4-5(N)-6-7-8
+    a = {1: 'C', 2: 'O', 3: 'C', 4: 'C', 5: 'N', 6: 'C', 7: 'C', 8: 'C'}
+    b = {(1, 2): 1, (2, 3): 1, (3, 4): 1, (4, 1): 1, (4, 5): 1, (5, 6): 1, (6, 1): 1, (6, 7): 1, (7, 8): 1, (8, 1): 1}
+    out.append(Spec(a, b, {1: ([2, 4, 6, 8], True), 4: ([3, 1, 5, 'h'], True), 6: ([5, 1, 7, 'h'], False)}, name='cage-3-closures'))
+    # steroid-like fused tricycle with hetero atoms (three ring-fusion centres with H)
+    a = {i: 'C' for i in range(1, 14)}
+    a[3], a[12] = 'O', 'N'
+    b = {(1, 2): 1, (2, 3): 1, (3, 4): 1, (4, 5): 1, (5, 6): 1, (6, 1): 1,          # ring A 1..6
+         (5, 7): 1, (7, 8): 1, (8, 9): 1, (9, 10): 1, (10, 6): 1,                    # ring B 5,6,7,8,9,10
+         (9, 11): 1, (11, 12): 1, (12, 13): 1, (13, 10): 1}                           # ring C 9,10,11,12,13
+    out.append(Spec(a, b, {5: ([4, 6, 7, 'h'], True), 6: ([1, 5, 10, 'h'], False), 9: ([8, 10, 11, 'h'], True),
+                           10: ([6, 9, 13, 'h'], True)}, name='fused-tricycle'))
+    return out
+
+
+def spec_reference(spec, index):
+    """reference configuration of a spelled spec on chython atom numbers (token index + 1)"""
+    num = {a: index[a] + 1 for a in index}
+    tet = {num[c]: ([num[x] if x != 'h' else 'h' for x in ref], sign) for c, (ref, sign) in spec.centres.items()}
+    db = {}
+    for (a, b), (x, y, cis) in spec.dbonds.items():
+        key = tuple(sorted((num[a], num[b]), key=str))
+        db[key] = {((num[x], num[y]) if key[0] == num[a] else (num[y], num[x])): cis}
+    return tet, db
+
+
+def written_outputs(mol, rng, k):
+    """canonical string + k random-order strings with their atom orders"""
+    import chython.algorithms.smiles as SM
+    outs = [('', str(mol).split()[0], list(mol.smiles_atoms_order))]
+    old = SM.random
+    SM.random = rng.random
+    try:
+        for _ in range(k):
+            s, order = mol.__format__('r', _return_order=True)
+            outs.append(('r', s, list(order)))
+    finally:
+        SM.random = old
+    return outs
+
+
+def judge_input(ctx, smi, ref_tet, ref_db, rng, k, tag, use_rdkit=True, kstream=None):
+    """parse `smi` with chython, write it canonically and in k random orders, judge every written string with the
+    independent reader against the reference configuration (and with RDKit)."""
+    from chython import smiles
+    try:
+        mol = smiles(smi)
+    except Exception as e:
+        ctx.dist(f'judge-skip:{type(e).__name__}')
+        return 0
+    labelled = {n for n, a in mol.atoms() if a.stereo is not None}
+    bad = 0
+    r_in = rd_canon(smi) if use_rdkit else None
+    for fmt, out, order in written_outputs(mol, rng, k):
+        ctx.count(('written', out))
+        if kstream is not None:
+            # K: the mark the Lean writer model predicts for the neighbour order READ INDEPENDENTLY from the written string
+            try:
+                mo = mini_read(out)
+            except ValueError:
+                mo = None
+            if mo is not None and len(mo.atoms) == len(order):
+                hs = h_atoms(mol)
+                for i, a in enumerate(mo.atoms):
+                    c = order[i]
+                    if a['chi'] and c in mol.stereogenic_tetrahedrons and mol._atoms[c].stereo is not None:
+                        env = [order[x] for x in mo.nbrs[i]]
+                        at = mol._atoms[c]
+                        kstream.add(' '.join(map(str, ['wt'] + lst(mol.stereogenic_tetrahedrons[c]) + lst(env) + lst(hs) +
+                                                     [tri(at.stereo), at.implicit_hydrogens or 0, int(a['start'])])),
+                                    f"ok {int(a['chi'] == '@')}", {'kind': 'write-judge', 'smiles': smi, 'out': out})
+        try:
+            diffs = judge_written(mol, out, order, ref_tet, ref_db)
+        except ValueError as e:
+            ctx.notes.append(f'mini reader could not read chython output {out!r}: {e}')
+            continue
+        if diffs:
+            bad += 1
+            ctx.fail(f'C12/written-configuration-differs/{tag}',
+                     f'{smi!r} written as {out!r} ({"random order" if fmt else "canonical"}): {diffs[:2]}',
+                     {'kind': 'write-judge', 'smiles': smi})
+        elif use_rdkit and r_in is not None:
+            r_out = rd_canon(out)
+            if r_out != r_in:
+                bad += 1
+                ctx.fail(f'C12/rdkit-disagrees/{tag}', f'{smi!r} (RDKit {r_in!r}) written as {out!r} (RDKit {r_out!r})',
+                         {'kind': 'write-judge', 'smiles': smi})
+    return bad
+
+
+def stream_written(ctx):
+    """R: what the writer writes (canonical and random order) denotes the configuration that was read — judged by the
+    independent mini reader and by RDKit. Centres with several ring-closure digits, corpus molecules."""
+    rng = ctx.rng
+    k = 6 if ctx.quick else 30
+    ks = Stream(ctx, 'smiles_written_string_tetrahedron')
+    _state['written_stream'] = ks
+    for spec in cage_specs() + tetra_specs() + dbond_specs():
+        lim = 25 if ctx.quick else 400
+        for sp in (spec, spec.mirror()):
+            n = 0
+            for smi, index, nbrs in spellings(sp, rng, lim):
+                n += 1
+                tet, db = spec_reference(sp, index)
+                # self-check of the two independent harness tools (generator vs reader)
+                mt, md = mini_config(mini_read(smi), list(range(1, len(index) + 1)))
+                if any(same_tetra(tet[c], mt[c]) is not True for c in tet if c in mt) or set(mt) != set(tet):
+                    ctx.notes.append(f'harness self-check: generator and mini reader disagree on {smi!r}')
+                    ctx.dist('harness-selfcheck-disagreement')
+                    continue
+                judge_input(ctx, smi, tet, db, rng, k, spec.name, use_rdkit=not ctx.quick or n <= 6, kstream=ks)
+            ctx.dist(f'written:{spec.name}', n)
+    # all spellings of the same cage must also parse to equal molecules (reader side, multi-digit centres)
+    for spec in cage_specs():
+        lim = 40 if ctx.quick else 600
+        config_check(ctx, spec, list(spellings(spec, rng, lim)), list(spellings(spec.mirror(), rng, lim)))
+    # corpus molecules with stereo marks: reference = independent reading of the corpus string
+    from .. import molgen
+    cs = [s for s in molgen.corpus_smiles() if '@' in s or '/' in s or '\\' in s]
+    sample = cs if not ctx.quick else rng.sample(cs, 150)
+    from chython import smiles
+    for smi in sample:
+        try:
+            mi = mini_read(smi)
+            mol = smiles(smi)
+        except Exception as e:
+            ctx.dist(f'corpus-skip:{type(e).__name__}')
+            continue
+        tet, db = mini_config(mi, list(range(1, len(mi.atoms) + 1)))
+        labelled = {n for n, a in mol.atoms() if a.stereo is not None}
+        lab_db = set()
+        for n, m_, b in mol.bonds():
+            if b.stereo is not None:
+                t = mol._stereo_cis_trans_terminals.get(n)
+                if t:
+                    lab_db.add(tuple(sorted(t, key=str)))
+        # labels chython did not keep (non-stereogenic by its rules) are judged by the stereogenicity stream, not here
+        tet = {c: v for c, v in tet.items() if c in labelled}
+        db = {kk: v for kk, v in db.items() if kk in lab_db}
+        ctx.dist('corpus-stereo-elements', len(tet) + len(db))
+        judge_input(ctx, smi, tet, db, rng, 3 if ctx.quick else 8, 'corpus', use_rdkit=not ctx.quick, kstream=ks)
+    ks.run()
+
+
+# ---- ring double bonds / stereogenicity -----------------------------------------------------------
+
+def ring_db_specs():
+    """(spec, ring size): one double bond 1=2 inside a ring of n atoms, reference substituents = ring neighbours"""
+    out = []
+    for n in range(3, 15):
+        atoms = {i: 'C' for i in range(1, n + 1)}
+        bonds = {(i, i + 1): 1 for i in range(1, n)}
+        bonds[(n, 1)] = 1
+        bonds[(1, 2)] = 2
+        out.append((Spec(dict(atoms), dict(bonds), dbonds={(1, 2): (n, 3, True)}, name=f'cycloalkene-{n}'), n))
+        if n >= 5:
+            a2 = dict(atoms)
+            a2[4] = 'O'
+            out.append((Spec(a2, dict(bonds), dbonds={(1, 2): (n, 3, True)}, name=f'oxacycloalkene-{n}'), n))
+            a3 = dict(atoms)
+            a3[n + 1] = 'F'
+            b3 = dict(bonds)
+            b3[(1, n + 1)] = 1
+            out.append((Spec(a3, b3, dbonds={(1, 2): (n, 3, True)}, name=f'1-fluorocycloalkene-{n}'), n))
+        if n >= 6:
+            # lactone-like: C(=O) next to ring O
+            a4 = dict(atoms)
+            a4[4] = 'O'
+            a4[n + 1] = 'O'
+            b4 = dict(bonds)
+            b4[(5, n + 1)] = 2
+            out.append((Spec(a4, b4, dbonds={(1, 2): (n, 3, True)}, name=f'lactone-{n}'), n))
+        if n >= 6:
+            # a cyclopropane fused at the double-bond atom 1 (ring bond 1-n): atom 1 lies in a small ring that does not
+            # contain atom 2
+            a6 = dict(atoms)
+            a6[n + 1] = 'C'
+            b6 = dict(bonds)
+            b6[(1, n + 1)] = 1
+            b6[(n, n + 1)] = 1
+            out.append((Spec(a6, b6, dbonds={(1, 2): (n, 3, True)}, name=f'cyclopropa-at-double-bond-{n}'), n))
+        if n >= 7:
+            # a cyclopropane fused on the far side of the ring (atoms 5, 6)
+            a5 = dict(atoms)
+            a5[n + 1] = 'C'
+            b5 = dict(bonds)
+            b5[(5, n + 1)] = 1
+            b5[(6, n + 1)] = 1
+            out.append((Spec(a5, b5, dbonds={(1, 2): (n, 3, True)}, name=f'fused-cyclopropa-cycloalkene-{n}'), n))
+    return out
+
+
+def stream_ring_double_bonds(ctx):
+    """K: the ring-size rule of `__chiral_centers` vs the Lean decision function; R: E and Z forms are equal exactly when
+    RDKit says they are (small rings), labels on non-stereogenic double bonds are dropped."""
+    from chython import smiles
+    st = Stream(ctx, 'ring_double_bond_stereogenic')
+    rng = ctx.rng
+    for spec, n in ring_db_specs():
+        z = list(spellings(spec, rng, 4 if ctx.quick else 20))
+        e = list(spellings(spec.mirror(), rng, 4 if ctx.quick else 20))
+        plain = Spec(spec.atoms, spec.bonds, name=spec.name + '~plain')
+        p0 = next(iter(spellings(plain, rng, 1)))[0]
+        try:
+            mp = smiles(p0)
+            mz = [smiles(s) for s, *_ in z]
+            me = [smiles(s) for s, *_ in e]
+        except Exception as ex:
+            ctx.broke('correspondence', 'ring_double_bond_stereogenic', f'{spec.name}: {type(ex).__name__}: {ex}')
+            continue
+        # K: decision function on the unlabelled molecule
+        for key, env in mp.stereogenic_cis_trans.items():
+            a, b = key
+            ar = mp.atoms_rings
+            share = a in ar and b in ar and not set(ar[a]).isdisjoint(ar[b])
+            sizes = [len(r) for r in ar.get(a, []) if b in r]
+            real = f'ok {int(key in mp.chiral_cis_trans)}'
+            st.add(' '.join(map(str, ['rdb', 1, int(share)] + lst(sizes))), real, {'kind': 'ring-ez', 'name': spec.name, 'n': n, 'plain': p0})
+        # R: equality of E and Z vs RDKit, label dropped exactly when not stereogenic
+        sz, se = {str(m) for m in mz}, {str(m) for m in me}
+        rz, re_ = {rd_canon(s) for s, *_ in z}, {rd_canon(s) for s, *_ in e}
+        ctx.count(('ring-ez', spec.name))
+        ctx.dist(f'ring-size:{n}')
+        inp = {'kind': 'ring-ez', 'name': spec.name, 'n': n, 'z': z[0][0], 'e': e[0][0], 'plain': p0}
+        if len(sz) != 1 or len(se) != 1:
+            ctx.fail(f'C12/spellings-of-one-configuration-differ/{spec.name}', f'{spec.name}: Z spellings give {sorted(sz)[:3]}, E spellings {sorted(se)[:3]}', inp)
+            continue
+        if len(rz) != 1 or len(re_) != 1:
+            ctx.notes.append(f'ring-ez: RDKit does not see all generated spellings of {spec.name} as one molecule; skipped')
+            continue
+        chy_equal, rd_equal = sz == se, rz == re_
+        if chy_equal != rd_equal:
+            ctx.fail(f'C12/ring-double-bond-E-Z-{"equal" if chy_equal else "different"}/ring-size-{n}',
+                     f'{spec.name}: chython writes Z as {next(iter(sz))!r} and E as {next(iter(se))!r} '
+                     f'({"equal" if chy_equal else "different"}); RDKit: {next(iter(rz))!r} vs {next(iter(re_))!r}', inp)
+        if chy_equal and (next(iter(sz)) != str(mp)):
+            ctx.fail(f'C12/label-kept-on-non-stereogenic-double-bond/ring-size-{n}',
+                     f'{spec.name}: E and Z are equal but differ from the unlabelled molecule {str(mp)!r}: {next(iter(sz))!r}', inp)
+    st.run()
+
+
+def nonstereo_specs():
+    """one stereo mark on an element that is NOT stereogenic (two constitutionally identical substituents)"""
+    out = []
+    out.append(Spec({1: 'C', 2: 'C', 3: 'C', 4: 'F'}, {(1, 2): 1, (1, 3): 1, (1, 4): 1}, {1: ([2, 3, 4, 'h'], True)}, name='CH(C)(C)F'))
+    out.append(Spec({1: 'C', 2: 'F', 3: 'F', 4: 'Cl', 5: 'Br'}, {(1, 2): 1, (1, 3): 1, (1, 4): 1, (1, 5): 1},
+                    {1: ([2, 3, 4, 5], True)}, name='CF2ClBr'))
+    out.append(Spec({1: 'C', 2: 'C', 3: 'C', 4: 'O', 5: 'C', 6: 'O', 7: 'N'}, {(1, 2): 1, (2, 4): 1, (1, 3): 1, (3, 6): 1, (1, 5): 1, (1, 7): 1},
+                    {1: ([2, 3, 5, 7], False)}, name='C(CO)(CO)(C)N'))
+    out.append(Spec({1: 'C', 2: 'C', 3: 'C', 4: 'C', 5: 'F'}, {(1, 2): 2, (1, 3): 1, (1, 4): 1, (2, 5): 1},
+                    dbonds={(1, 2): (3, 5, True)}, name='Me2C=CHF'))
+    out.append(Spec({1: 'C', 2: 'C', 3: 'F', 4: 'Cl'}, {(1, 2): 2, (2, 3): 1, (2, 4): 1}, dbonds={}, name='H2C=CFCl'))
+    out.append(Spec({1: 'C', 2: 'C', 3: 'Cl', 4: 'Cl', 5: 'F'}, {(1, 2): 2, (1, 3): 1, (1, 4): 1, (2, 5): 1},
+                    dbonds={(1, 2): (3, 5, False)}, name='Cl2C=CHF'))
+    return out
+
+
+def stream_nonstereogenic(ctx):
+    """R: a mark on a non-stereogenic element is dropped: the molecule equals the unmarked one and is written without marks;
+    after an edit that destroys stereogenicity `fix_stereo` removes the label, an unrelated edit keeps it."""
+    from chython import smiles
+    for spec in nonstereo_specs():
+        plain = Spec(spec.atoms, spec.bonds, name=spec.name)
+        p = smiles(next(iter(spellings(plain, ctx.rng, 1)))[0])
+        for sp in (spec, spec.mirror()):
+            for smi, *_ in spellings(sp, ctx.rng, 12 if ctx.quick else 200):
+                ctx.count(('nonstereo', smi))
+                m = smiles(smi)
+                s = str(m)
+                if s != str(p) or '@' in s or '/' in s or '\\' in s:
+                    ctx.fail(f'C12/label-kept-on-non-stereogenic-element/{spec.name}',
+                             f'{smi!r} -> {s!r}, unmarked molecule is {str(p)!r}', {'kind': 'nonstereo', 'smiles': smi, 'plain': str(p)})
+    # fix_stereo after an edit
+    for smi, edit, expect_kept in (('C[C@H](F)Cl', ('F', 'Cl'), False), ('C[C@H](F)Cl', ('F', 'Br'), True),
+                                   ('F/C=C/Cl', None, True), ('CC[C@H](C)F', ('F', 'C'), True), ('CC[C@H](CF)C', ('F', 'H'), None)):
+        fails, what = probe({'kind': 'fix-stereo', 'smiles': smi, 'edit': list(edit) if edit else None, 'kept': expect_kept})
+        ctx.count(('fix-stereo', smi, edit))
+        if fails:
+            ctx.fail('C12/fix-stereo-label/' + smi, what, {'kind': 'fix-stereo', 'smiles': smi, 'edit': list(edit) if edit else None, 'kept': expect_kept})
+
+
+def fix_stereo_case(smi, edit, kept):
+    """replace the first atom of element edit[0] by element edit[1] (direct slot edit + fix_structure-free label refresh)"""
+    from chython import smiles
+    from chython.periodictable import Element
+    m = smiles(smi)
+    if edit:
+        n = next(n for n, a in m.atoms() if a.atomic_symbol == edit[0])
+        new = Element.from_symbol(edit[1])()
+        old = m._atoms[n]
+        new._implicit_hydrogens = old._implicit_hydrogens
+        m._atoms[n] = new
+        m.flush_cache()
+        m.calc_labels()
+    m.fix_stereo()
+    has = any(a.stereo is not None for _, a in m.atoms()) or any(b.stereo is not None for *_, b in m.bonds())
+    return m, has
